@@ -218,7 +218,7 @@ def exec_name(op):
     return '_exec_' + op
 
 
-def run_instrs(h, cpu, instrs, children=()):
+def run_instrs(h, cpu, instrs, children=(), locals_=None):
     """execute a straight-line list of emitted instructions on the real _exec_* bodies.
     ('_child', k) stands for the code of child expression k: by the child's generator contract it pushes one
     cell of the child's static type (children[k]).  Returns None or the Outcome of the first instruction that raised."""
@@ -238,6 +238,13 @@ def run_instrs(h, cpu, instrs, children=()):
             cpu.stack.append(c)
             continue
         if op.startswith('_'):
+            continue
+        if locals_ is not None and op[:5] == 'readl' and args and isinstance(args[0], str):
+            # by the contract of readl<t> (cpu.read): pushes the value of the named local cell
+            src = locals_[args[0]]
+            c = object.__new__(CellValue)
+            c.type, c.value = src.type, src.value
+            cpu.stack.append(c)
             continue
         if op == 'push$':
             out = h.call(cpu._exec_push_string, args[0][1:-1])
